@@ -121,7 +121,15 @@ def check_client(report, lib: Lib, is_async: bool):
                          "the flag must count arguments that are `not None` (a falsy-but-given value such as 0, '' or False is still given)")
                 if b is not None:
                     ldefs = [s for s in cm.fn.body if isinstance(s, ast.Assign) and D(sk, s.targets[0]) == b["_L_"]]
-                    r2.check(len(ldefs) == 1 and D(sk, ldefs[0].value) == FLAT_LIST, *cm.where(chk),
+                    as_loop = len(ldefs) == 1 and isinstance(ldefs[0].value, ast.List) and nflat is not None and len(ldefs[0].value.elts) == nflat \
+                        and all(D(sk, e) == NAME for e in ldefs[0].value.elts)
+                    if as_loop:
+                        # written as an explicit loop over the flattened fields: the loop must be unfiltered
+                        for e in ldefs[0].value.elts:
+                            es, ls = sk.seg_of_node(e), sk.seg_of_node(ldefs[0])
+                            extra = [g for g in es.guards[len(ls.guards):] if g[0] != "loop"]
+                            r2.check(not extra, *cm.where(e), f"list element guarded by {extra}", "every flattened parameter must be in the tested list")
+                    r2.check(len(ldefs) == 1 and (D(sk, ldefs[0].value) == FLAT_LIST or as_loop), *cm.where(chk),
                              D(sk, ldefs[0].value) if ldefs else "<none>", f"the list tested must be all flattened parameters {FLAT_LIST}")
             r2.check(cm.cfg.dominates(chk, call_stmt), *cm.where(chk), "exclusion check vs rpc call", "the check must dominate the rpc call")
             for w in writes_to_request(cm):
@@ -205,26 +213,18 @@ def check_python(report):
     m = pm()
     fm = m.func("gapic.schema.wrappers.Method._fields_mapping")
     p = fm.module.path
-    inner = [n for n in ast.walk(fm.node) if isinstance(n, ast.FunctionDef) and n is not fm.node]
-    r.need(len(inner) == 1, "_fields_mapping.filter_fields")
-    ff = inner[0]
+    from .common_rules import fields_mapping_facts
+    from ..pymodel import fmatch
+    ff = fields_mapping_facts()
     r.instance("suffix rule")
-    node, b = find_match("_N_ + ('_' if _F_.field_pb.name in utils.RESERVED_NAMES else '')", ff)
-    aug = [n for n in ast.walk(ff) if isinstance(n, ast.AugAssign) and pmatch("'_' if _F_.field_pb.name in utils.RESERVED_NAMES else ''", n.value) is not None]
-    r.check(node is not None or len(aug) == 1, p, ff.lineno, "reserved-name suffix in filter_fields",
-            "the flattened key must get '_' exactly when the leaf field's proto name is in RESERVED_NAMES")
-    ys = [n for n in ast.walk(ff) if isinstance(n, ast.Yield)]
-    r.check(len(ys) == 1 and isinstance(ys[0].value, ast.Tuple) and len(ys[0].value.elts) == 2, p, ff.lineno, "yield name, field",
-            "filter_fields must yield (key, field) pairs")
+    r.check(ff["key_rule"], p, fm.node.lineno, f"flattened key: {ff['shown']}",
+            "the flattened key must be the stripped signature path plus '_' exactly when the resolved leaf field's proto name is in RESERVED_NAMES")
+    r.check(ff["key_pos"], p, fm.node.lineno, "entries are (key, resolved field)", "each entry pairs that key with the field resolved by get_field")
     r.instance("ordered")
-    node, _ = find_match("collections.OrderedDict((_X_ for _S_ in signatures for _X_ in filter_fields(_S_)))", fm.node)
-    r.check(node is not None, p, fm.node.lineno, "answer = OrderedDict(... for sig in signatures ...)",
-            "the mapping must be built in signature order (insertion-ordered)")
-    srt = [c for c in calls(fm.node) if ast.unparse(c.func) in ("sorted", "set", "frozenset", "reversed")]
-    r.check(not srt, p, fm.node.lineno, "no reordering in _fields_mapping", "flattened fields are re-ordered")
+    r.check(ff["order"], p, fm.node.lineno, "entries in signature order", "the mapping must be built in signature order (insertion-ordered, no re-ordering)")
     gf = m.func("gapic.schema.wrappers.MessageType.get_field")
     r.instance("get_field")
-    node, _ = find_match("self.fields[_F_ + ('_' if _F_ in utils.RESERVED_NAMES else '')]", gf.node)
+    node, _, _form = fmatch(m, "self.fields[_F_ + ('_' if _F_ in utils.RESERVED_NAMES else '')]", gf)
     r.check(node is not None, p, gf.node.lineno, "get_field lookup", "get_field must look up first_field + '_' iff first_field is reserved")
     r.instance("flattened_fields")
     fl = m.func("gapic.schema.wrappers.Method.flattened_fields")
